@@ -103,7 +103,8 @@ let one_case () =
         let he = nint () in let e = nfl () in
         let ht = nint () in let t = nfl () in
         let eu = unit_of (nint ()) in let tu = unit_of (nint ()) in
-        (match ffm_call numf st l (if hr = 1 then Some (ra, dec) else None)
+        (match ffm_call2 numf st l (if hr = 1 || hr = 2 then Some ra else None)
+                 (if hr = 1 || hr = 3 then Some dec else None)
                  (if he = 1 then Some e else None) (if ht = 1 then Some t else None) eu tu with
          | Ok v -> emit [hx v] | Err e -> emit ["E:" ^ errname e])
     | "GP" -> let l = nnat () in let n = pname_of (next ()) in
